@@ -543,6 +543,14 @@ def c11(run):
                 body += rng.choice([' "quoted" ', ' (aside) ', '  ', ' said ', ' says '])
             src = 'X says ' + body + '\nsay X\n'
             cases.append(('str', src, body, None, body))
+    # word lengths and word counts sweeping powers of two +-1 and 1000 (a digit is the length modulo 10 whatever the length)
+    for nn in (texts.SWEEP_QUICK if run.tier == 'quick' else texts.SWEEP):
+        w = ''.join(rng.choice('abcdefghijklmnopqrstuvwxyz') for _ in range(nn))
+        cases.append(('num', 'X is %s bc\nsay X\n' % w, [nn % 10, 2], None, 'word of %d letters' % nn))
+        cases.append(('num', 'X is ab-%s. c\nsay X\n' % w, [(nn + 3) % 10, 1], 1, 'hyphenated part of %d letters' % nn))
+        cases.append(('num', "X is %s's. c\nsay X\n" % w, [(nn + 1) % 10, 1], 1, 'suffixed word of %d letters' % nn))
+        if nn <= 300:
+            cases.append(('num', 'X is%s\nsay X\n' % (' abc' * nn), [3] * nn, None, '%d words' % nn))
     # degenerate shapes: a suffix with no word before it (after a comment / number / string), and the
     # recorded finding F2: hundreds of fractional digits (the power of ten underflows)
     cases.append(('num', "X is (c)'s foo\nsay X\n", [1, 3], None, "(c)'s foo"))
